@@ -6,8 +6,9 @@ Specification vocabulary for the C07 theorems about `Model/Fec` (core Lean only)
   `ReconstructData` returns the `d` data shards from ANY sub-family of at least `d` shards of a
   codeword.  `Lemmas/RS.lean` proves (Mathlib) that the systematic Vandermonde construction over
   any field has this property in matrix form (`decode_encode`, `data_determined`).  The executable
-  GF(2^8) instance `Fec.rsNew` is NOT proved lawful (GF(2^8) is not proved to be a field here);
-  it is tied to klauspost/reedsolomon by byte-exact correspondence on every run.
+  GF(2^8) instance `Fec.rsNew` is proved lawful in `Lemmas/RSBridge.rsNew_lawful`
+  (`Props/C07Field.C07_rsNew_lawful`); it is tied to klauspost/reedsolomon by byte-exact
+  correspondence on every run.
 * `Group`: a genuine FEC group as the sender's encoder emits it — `d` data bodies
   (`size | payload`), placed at ids `base … base + n − 1`.
 -/
